@@ -378,6 +378,18 @@ pub fn make_checks(prop: &str, rng: &mut Rng, env: &GenEnv) -> (Vec<Check>, Stri
                     if rng.coin() {
                         c.pregrow = random_pregrow(rng);
                     }
+                    if rng.chance(1, 6) {
+                        // a tape of some hundred thousand cells before the program starts: what a
+                        // refused request means may depend on how much slack the growth asked for
+                        // (one side is often short, so that the program walks off that end)
+                        let side = |rng: &mut Rng| match rng.below(4) {
+                            0 | 1 => rng.range(0, 8),
+                            2 => rng.range(0, 400),
+                            _ => rng.range(0, 400_000),
+                        };
+                        let (short, long) = (side(rng), rng.range(100_000, 400_000));
+                        c.pregrow = Some(if rng.coin() { (short, long) } else { (long, short + 1) });
+                    }
                     c.max_events = r.events.len() + 64;
                     // fault-free run under the same plan tells how many requests there are
                     let o = crate::exec::execute(&c);
